@@ -379,25 +379,36 @@ pub fn minimise(
     class: &str,
     max_replays: usize,
     max_secs: f64,
-) -> (Vec<u32>, usize) {
+    replay_timeout_secs: u64,
+) -> (Vec<u32>, usize, bool) {
     let start = std::time::Instant::now();
     let mut replays = 0usize;
     let mut best = trim_tape(tape);
+    // A shrunk tape is another scenario, and it can be a far more expensive one than the run
+    // that failed (zeros where sizes and counts were drawn small by luck). A replay that does not
+    // come back within `replay_timeout_secs` ends the minimisation with what it has: its thread
+    // is abandoned and may still be using the sandbox, so nothing else is replayed there.
+    let saved_timeout = RUN_TIMEOUT_SECS.swap(replay_timeout_secs, std::sync::atomic::Ordering::Relaxed);
+    let aborted = std::cell::Cell::new(false);
     let mut try_tape = |cand: &Vec<u32>, replays: &mut usize| -> Option<Vec<u32>> {
-        if *replays >= max_replays || start.elapsed().as_secs_f64() > max_secs {
+        if aborted.get() || *replays >= max_replays || start.elapsed().as_secs_f64() > max_secs {
             return None;
         }
         *replays += 1;
         let r = run_one(prop, f, tier, sandbox, Tape::replay(cand.clone()), false, false);
+        if r.harness_error.is_some() {
+            aborted.set(true);
+            return None;
+        }
         match &r.verdict.violation {
-            Some(v) if v.class == class && r.harness_error.is_none() => Some(trim_tape(r.tape)),
+            Some(v) if v.class == class => Some(trim_tape(r.tape)),
             _ => None,
         }
     };
     // 1. truncation (missing values read as 0)
     let mut lo = 0usize;
     let mut hi = best.len();
-    while lo < hi && replays < max_replays {
+    while lo < hi && replays < max_replays && !aborted.get() {
         let mid = (lo + hi) / 2;
         let cand: Vec<u32> = best[..mid].to_vec();
         if let Some(t) = try_tape(&cand, &mut replays) {
@@ -409,7 +420,7 @@ pub fn minimise(
     }
     // 2. zero / delete blocks, 3. lower single values; repeat until no progress
     let mut progress = true;
-    while progress && replays < max_replays && start.elapsed().as_secs_f64() <= max_secs {
+    while progress && replays < max_replays && start.elapsed().as_secs_f64() <= max_secs && !aborted.get() {
         progress = false;
         let mut size = (best.len() / 2).max(1);
         loop {
@@ -463,7 +474,9 @@ pub fn minimise(
             i += 1;
         }
     }
-    (best, replays)
+    drop(try_tape);
+    RUN_TIMEOUT_SECS.store(saved_timeout, std::sync::atomic::Ordering::Relaxed);
+    (best, replays, aborted.get())
 }
 
 pub fn result_json(r: &RunResult) -> Value {
